@@ -349,7 +349,8 @@ func NewRequest(ctx context.Context, lmd *Daemon, buf *bufio.Reader, options Par
 	// remove unnecessary filter indentation
 	if options&ParseOptimize != 0 {
 		req.optimizeFilterIndentation()
-		req.StatsGrouped = req.optimizeStatsGroups(req.Stats, true)
+		// optimize a copy, req.Stats is still used to print the request, ex. for cluster sub requests
+		req.StatsGrouped = req.optimizeStatsGroups(cloneFilterList(req.Stats), true)
 	}
 
 	req.SetRequestColumns()
